@@ -136,6 +136,17 @@ func TestVerifC08Histories(t *testing.T) {
 					step(act{Op: "label-using", I: idx(t)})
 				}
 			},
+			// CRD lifecycle: the API server's cleanup controller, out-of-band CRD deletion, third-party CRD finalizers
+			"crd-cleanup":  func(t *rapid.T) { step(act{Op: "crd-cleanup"}) },
+			"crd-cleanup2": func(t *rapid.T) { step(act{Op: "crd-cleanup"}) },
+			"del-crd": func(t *rapid.T) {
+				if rapid.IntRange(0, 2).Draw(t, "really") == 0 {
+					step(act{Op: "del-crd", Obj: rapid.SampledFrom([]string{"xr", "claim"}).Draw(t, "which"), FG: rapid.Bool().Draw(t, "fg")})
+				}
+			},
+			"addfin-crd": func(t *rapid.T) {
+				step(act{Op: "addfin-crd", Obj: rapid.SampledFrom([]string{"xr", "claim"}).Draw(t, "which")})
+			},
 			"deactivate-rev": func(t *rapid.T) { step(act{Op: "deactivate-rev"}) },
 			"rec-rev2":       func(t *rapid.T) { step(drawFault(t, act{Op: "rec-rev"})) },
 			"lock-churn":     func(t *rapid.T) { step(act{Op: "lock-churn", I: rapid.IntRange(0, 2).Draw(t, "n")}) },
@@ -170,6 +181,12 @@ func TestVerifC08Histories(t *testing.T) {
 		}
 		if w.usageLabelMismatch > 0 {
 			rec.Label("usage-deletion-reconcile-selector-label-mismatch")
+		}
+		if w.recTermCRD > 0 {
+			rec.Label("xrd-reconcile-with-terminating-but-existing-crd")
+		}
+		if w.recTermCRDLive > 0 {
+			rec.Label("xrd-reconcile-with-terminating-but-existing-crd+live-instances")
 		}
 		if w.midRan > 0 {
 			rec.Label("interloper-ran")
@@ -210,6 +227,7 @@ type dfs struct {
 	pruned   int
 	shard    int
 	shards   int
+	noOOB    bool
 	first    int
 }
 
@@ -225,8 +243,16 @@ func (d *dfs) enabled() []act {
 		{Op: "addfin"},
 		{Op: "del-composed", Obj: "r0"},
 		{Op: "restart"},
+		{Op: "crd-cleanup"},
 	}
-	out = append(out, w.removable()...)
+	if !d.noOOB {
+		out = append(out, act{Op: "del-crd", Obj: "xr"}, act{Op: "del-crd", Obj: "claim"})
+	}
+	for _, a := range w.removable() {
+		if !strings.HasPrefix(a.Obj, "crd:") { // third-party finalizer games on CRDs: random histories and the sweep only
+			out = append(out, a)
+		}
+	}
 	return out
 }
 
@@ -311,22 +337,29 @@ func TestVerifC08Exhaustive(t *testing.T) {
 	}
 	shard, shards := verifkit.Shard()
 	for _, fg := range []bool{false, true} {
-		for _, pass := range []struct {
+		type dfsPass struct {
 			faults bool
 			depth  int
-		}{{false, depthFree}, {true, depthFault}} {
+			oob    bool // include out-of-band CRD deletion by a user
+		}
+		passes := []dfsPass{{false, depthFree, true}, {true, depthFault, true}}
+		if verifkit.Tier() == "thorough" && os.Getenv("VERIF_C08_DEPTHS") == "" {
+			// out-of-band CRD deletion widens the tree a lot: the deepest pass goes without it
+			passes = []dfsPass{{false, depthFree, false}, {false, depthFree - 2, true}, {true, depthFault, true}}
+		}
+		for _, pass := range passes {
 			u := universe{Claims: 1, Templates: 1, Foreground: []bool{fg}, Stage: stageFull, Seed: 11}
 			w := newWorld(u, rec)
 			if v := w.sim.TakeViolations(); len(v) > 0 {
 				t.Fatalf("violation during bring-up: %v", v)
 			}
-			d := &dfs{t: t, w: w, rec: rec, faults: pass.faults, maxDepth: pass.depth, visited: map[string]int{}, shard: shard, shards: shards}
+			d := &dfs{t: t, w: w, rec: rec, faults: pass.faults, noOOB: !pass.oob, maxDepth: pass.depth, visited: map[string]int{}, shard: shard, shards: shards}
 			d.explore(0, nil)
 			rec.AddExtra(fmt.Sprintf("dfs_states_faults_%v", pass.faults), d.states)
 			rec.AddExtra(fmt.Sprintf("dfs_edges_faults_%v", pass.faults), d.edges)
 			rec.AddExtra(fmt.Sprintf("dfs_pruned_faults_%v", pass.faults), d.pruned)
 			rec.Extra(fmt.Sprintf("dfs_depth_faults_%v", pass.faults), fmt.Sprint(pass.depth))
-			rec.Labelf("dfs fg=%v faults=%v depth=%d", fg, pass.faults, pass.depth)
+			rec.Labelf("dfs fg=%v faults=%v depth=%d crd-deleted-out-of-band=%v", fg, pass.faults, pass.depth, pass.oob)
 		}
 	}
 }
@@ -424,7 +457,7 @@ func directedRows() []directed {
 			name: "XRD delete: instances first, then Stop, then the CRD, then the finalizers",
 			u:    full(nil),
 			script: cat(one("del-xrd"), one("rec-def"), one("rec-def"), one("rec-off"), one("rec-off"), one("rec-xr"), one("rec-claim"),
-				rep(3, act{Op: "rec-def"}, act{Op: "rec-off"}, act{Op: "gc"}), one("rec-xr"), rep(3, act{Op: "rec-def"}, act{Op: "rec-off"}, act{Op: "gc"}), rep(3, act{Op: "gc"})),
+				rep(3, act{Op: "rec-def"}, act{Op: "rec-off"}, act{Op: "gc"}, act{Op: "crd-cleanup"}), one("rec-xr"), rep(3, act{Op: "rec-def"}, act{Op: "rec-off"}, act{Op: "gc"}, act{Op: "crd-cleanup"}), rep(3, act{Op: "gc"})),
 			checks: []milestone{
 				{after: 2, desc: "the XR CRD survives while a terminating XR exists, XR controller still running", ok: func(w *world) bool {
 					return w.sim.Get(xrCRDKey) != nil && w.eng.running[xrCtrl] && !w.gone("xr:0")
@@ -434,7 +467,7 @@ func directedRows() []directed {
 				}},
 				{after: -1, desc: "XRD, both CRDs and all instances are gone; both controllers were stopped", ok: func(w *world) bool {
 					return w.sim.Get(xrdKey) == nil && w.sim.Get(xrCRDKey) == nil && w.sim.Get(claimCRDKey) == nil && w.gone("xr:0") && w.gone("claim:0") &&
-						len(w.eng.running) == 0 && w.crdDeletes == 2 && w.effectiveStops == 2 && w.ctrlFinRemoved[finDefined] == 1 && w.ctrlFinRemoved[finOffered] == 1
+						len(w.eng.running) == 0 && w.crdDeletes >= 2 && w.effectiveStops == 2 && w.ctrlFinRemoved[finDefined] == 1 && w.ctrlFinRemoved[finOffered] == 1
 				}},
 			},
 		},
@@ -443,7 +476,7 @@ func directedRows() []directed {
 			u:    full(nil),
 			script: cat(one("del-claim"), one("rec-claim"), one("rec-xr"), rep(3, act{Op: "gc"}), one("del-xrd"),
 				[]act{{Op: "rec-def", F: "err-server", K: 5}, {Op: "rec-def", F: "crash-after", K: 5}, {Op: "rec-off", F: "err-server", K: 4}},
-				rep(4, act{Op: "rec-def"}, act{Op: "rec-off"})),
+				rep(4, act{Op: "rec-def"}, act{Op: "rec-off"}, act{Op: "crd-cleanup"})),
 			checks: []milestone{
 				{after: -1, desc: "XRD and CRDs are gone", ok: func(w *world) bool {
 					return w.sim.Get(xrdKey) == nil && w.sim.Get(xrCRDKey) == nil && w.sim.Get(claimCRDKey) == nil
@@ -494,7 +527,7 @@ func directedRows() []directed {
 		{
 			name:   "inactive revision: deactivation fails on the Lock update (500, then crash), then the revision is deleted",
 			u:      full(func(u *universe) { u.Revision = true }),
-			script: []act{{Op: "deactivate-rev"}, {Op: "rec-rev", F: "err-server", K: 3}, {Op: "rec-rev", F: "crash-before", K: 3}, {Op: "del-rev", FG: true}, {Op: "rec-rev"}, {Op: "gc"}, {Op: "gc"}, {Op: "gc"}},
+			script: []act{{Op: "deactivate-rev"}, {Op: "rec-rev", F: "err-server", K: 3}, {Op: "rec-rev", F: "crash-before", K: 3}, {Op: "del-rev", FG: true}, {Op: "rec-rev"}, {Op: "gc"}, {Op: "crd-cleanup"}, {Op: "gc"}, {Op: "gc"}},
 			checks: []milestone{
 				{after: 2, desc: "still listed in the Lock", ok: func(w *world) bool { return w.lockHas(revName) }},
 				{after: -1, desc: "revision gone, Lock lost its entry", ok: func(w *world) bool { return w.gone("rev") && !w.lockHas(revName) }},
